@@ -7,8 +7,13 @@ translator:     gen/arena.py (capacities, struct sizes/alignments/offsets, move-
 correspondence: E-SEQ, harness/c06.cpp (real ExclusiveMonotonicBufferResource on recording page
                 allocators / upstream resources with real memory, canaries, property oracle)
                 vs lean/Drivers/C06.lean
-supporting:     thorough tier: 2-4 real threads on SharedMonotonicBufferResource / SwissMemoryResource
-                with the same oracle (no model; evidence only)
+supporting:     (no model; evidence only, both tiers)
+                * 2-4 real threads on SharedMonotonicBufferResource / SwissMemoryResource with the same
+                  oracle; every thread also registers destructors that check blocks allocated through
+                  OTHER threads' sub-resources, the page allocator scribbles over returned pages
+                  (oracle dtor_after_page_free: release() = all destructors, then all pages)
+                * several Exclusive / Swiss resources on one real PageHeap (CachedPageAllocator with a
+                  small ring) through many allocate / release cycles (oracle overlap_block / page_twice)
 """
 from vlib.core import *
 
@@ -162,6 +167,21 @@ def threads_part(ctx, exe_plain, dist, ns=(2, 3, 4), rounds=6):
                                       kind, kind, n, seed, rounds, "\n".join("#   " + l for l in r.stdout.splitlines()[-30:])))
 
 
+def pageheap_part(ctx, exe, dist, cycles=400):
+    """the resource on the library's own allocator stack (real PageHeap with a small page cache):
+    several resources share it through many allocate / release cycles; same oracle (no model)"""
+    runs = dist.setdefault("pageheap_runs", [])
+    for ps, cap in [(256, 8), (4096, 8), (128, 4), (512, 16)]:
+        seed = ctx.rng.randrange(1, 10 ** 6)
+        r = sh([str(exe), "pageheap", str(seed), str(ps), str(cap), str(cycles)], timeout=600)
+        last = r.stdout.strip().splitlines()[-1] if r.stdout.strip() else "<no output>"
+        runs.append(last)
+        if r.returncode != 0 or "!ORACLE" in r.stdout:
+            ctx.failing_input("pageheap:%s" % classify(r.stdout.splitlines()),
+                              "# resources on one real PageHeap (no model)\npageheap %d %d %d %d\n# output:\n%s" % (
+                                  seed, ps, cap, cycles, "\n".join("#   " + l for l in r.stdout.splitlines()[-30:])))
+
+
 def run(ctx):
     ctx.cov["trusted_base"] += [
         "harness/c06.cpp: recording page allocators / upstream resources with deterministic placement stand for arbitrary allocators (theorems quantify over every placement satisfying the stated assumptions)",
@@ -276,7 +296,8 @@ def run(ctx):
     excluded_point(ctx, exe, drv)
     # supporting evidence for the shared / swiss variants (real threads, same oracle, ASan+UBSan)
     threads_part(ctx, exe, dist, ns=(2, 4), rounds=3)
-    ctx.log("concurrent supporting runs done")
+    pageheap_part(ctx, exe, dist, cycles=400 if ctx.quick else 4000)
+    ctx.log("concurrent + PageHeap supporting runs done")
     if not ctx.quick:
         exe_plain, log = build_exe("c06p", ["harness/c06.cpp"], "plain", repo_cpp=REPO_CPP)
         if exe_plain is None:
@@ -320,7 +341,7 @@ def excluded_point(ctx, exe, drv):
 def replay(ctx, path):
     lines = [l.strip() for l in Path(path).read_text().splitlines() if l.strip() and not l.startswith("#")]
     exe, log = build()
-    if lines and lines[0].startswith("threads"):
+    if lines and lines[0].startswith(("threads", "pageheap")):
         w = lines[0].split()
         r = sh([str(exe)] + w, timeout=600)
         print(r.stdout[-3000:])
